@@ -483,15 +483,32 @@ Definition v_hints (o : option value) : option (list hint) :=
   end.
 
 (* the cleartext part of a decoded KDC-REP: what Verify and DecryptEncPart read *)
+Definition v_int (o : option value) : option Z := match o with Some (VInt z) => Some z | _ => None end.
+Definition v_obytes (o : option value) : option bytes := match o with Some (VBytes b) => Some b | _ => None end.
+
+Definition v_tkt_realm (o : option value) : option bytes :=
+  match o with
+  | Some (VSeq [tv; r; _; _]) => match v_int tv, v_obytes r with Some _, Some r' => Some r' | _, _ => None end
+  | _ => None
+  end.
+
+(* EncryptedData: (etype, kvno or 0, cipher) *)
+Definition v_encdata (o : option value) : option (Z * Z * bytes) :=
+  match o with
+  | Some (VSeq [et; kv; c]) =>
+    match v_int et, (match kv with None => Some 0 | Some _ => v_int kv end), v_obytes c with
+    | Some e, Some k, Some c' => Some (e, k, c')
+    | _, _, _ => None
+    end
+  | _ => None
+  end.
+
 Definition project_rep (v : value) : option kdc_rep :=
   match v with
-  | VSeq [Some (VInt _); Some (VInt _); pad; Some (VBytes crealm); cname;
-          Some (VSeq [Some (VInt _); Some (VBytes trealm); _; _]);
-          Some (VSeq [Some (VInt et); kv; Some (VBytes cipher)])] =>
-    match v_names cname, v_hints pad,
-          (match kv with None => Some 0 | Some (VInt k) => Some k | _ => None end) with
-    | Some cn, Some hs, Some k => Some (mkRep cn crealm trealm et k cipher hs)
-    | _, _, _ => None
+  | VSeq [p; mt; pad; crealm; cname; tkt; encpart] =>
+    match v_int p, v_int mt, v_hints pad, v_obytes crealm, v_names cname, v_tkt_realm tkt, v_encdata encpart with
+    | Some _, Some _, Some hs, Some cr, Some cn, Some tr, Some (et, k, ci) => Some (mkRep cn cr tr et k ci hs)
+    | _, _, _, _, _, _, _ => None
     end
   | _ => None
   end.
@@ -500,7 +517,10 @@ Definition v_msg_type (v : value) : option Z :=
   match v with VSeq (_ :: Some (VInt mt) :: _) => Some mt | _ => None end.
 
 (* ASRep.Unmarshal / TGSRep.Unmarshal: the shadow struct under APPLICATION app, the msg-type test (pvno is not
-   looked at), the ticket *)
+   looked at), the ticket.  The msg-type of a KDC reply equals its APPLICATION tag number (msgtype.KRB_AS_REP =
+   asnAppTag.ASREP = 11, msgtype.KRB_TGS_REP = asnAppTag.TGSREP = 13), hence one parameter.  Any failure -
+   including the fall-back attempt of processUnmarshalReplyError to read the bytes as a KRB-ERROR - is an error
+   return, i.e. no reply. *)
 Definition parse_kdc_rep (app : Z) (w : bytes) : option kdc_rep :=
   match go_unmarshal_app app g_KDCRep w with
   | Some v =>
